@@ -593,6 +593,10 @@ func parseSpecText(pkg string, lines []string) (sf *SpecFile, err error) {
 	}
 	exprList := func(s string) []SExpr {
 		var out []SExpr
+		if t := strings.TrimSpace(s); strings.HasPrefix(t, "forall ") || strings.HasPrefix(t, "exists ") {
+			// a quantified clause is one expression (its variable list contains top-level commas)
+			return []SExpr{mustExpr(t)}
+		}
 		for _, part := range splitTop(s, ',') {
 			part = strings.TrimSpace(part)
 			if part != "" {
